@@ -84,6 +84,8 @@ pub trait Subject: Clone + Eq + Ord + std::hash::Hash {
     fn arcs_(&self) -> Vec<(usize, usize, i128)>;
     /// `arcs()` (also for the weighted representation).
     fn plain_arcs_(&self) -> Vec<(usize, usize)>;
+    /// Two `arcs()` iterators over the same digraph polled alternately; the listing of the second.
+    fn arcs_interleaved_(&self) -> Vec<(usize, usize)>;
     fn size_(&self) -> usize;
     /// `has_arc` (unweighted: `Some(1)`) / `arc_weight`, plus `has_arc` for the weighted one.
     fn weight_(&self, u: usize, v: usize) -> Option<i128>;
@@ -131,6 +133,22 @@ macro_rules! impl_subject_unweighted {
             fn plain_arcs_(&self) -> Vec<(usize, usize)> {
                 self.arcs().collect()
             }
+            fn arcs_interleaved_(&self) -> Vec<(usize, usize)> {
+                let mut a = self.arcs();
+                let mut b = self.arcs();
+                let mut out = vec![];
+                loop {
+                    let x = a.next();
+                    let y = b.next();
+                    if let Some(p) = y {
+                        out.push(p);
+                    }
+                    if x.is_none() && y.is_none() {
+                        break;
+                    }
+                }
+                out
+            }
             fn size_(&self) -> usize {
                 self.size()
             }
@@ -175,6 +193,22 @@ macro_rules! impl_subject_weighted {
             }
             fn plain_arcs_(&self) -> Vec<(usize, usize)> {
                 self.arcs().collect()
+            }
+            fn arcs_interleaved_(&self) -> Vec<(usize, usize)> {
+                let mut a = self.arcs();
+                let mut b = self.arcs();
+                let mut out = vec![];
+                loop {
+                    let x = a.next();
+                    let y = b.next();
+                    if let Some(p) = y {
+                        out.push(p);
+                    }
+                    if x.is_none() && y.is_none() {
+                        break;
+                    }
+                }
+                out
             }
             fn size_(&self) -> usize {
                 self.size()
@@ -306,6 +340,7 @@ pub fn obs_final<D: Subject>(d: &D) -> V {
     if D::WEIGHTED {
         out.push(V::pairs(d.plain_arcs_()));
     }
+    out.push(V::pairs(d.arcs_interleaved_()));
     V::L(out)
 }
 
@@ -362,6 +397,27 @@ pub fn eval(op: &str, args: &[V]) -> Option<Vec<V>> {
 
 // ------------------------------------------------------------------------------ generator
 
+/// Vertex arguments far outside every digraph: powers of two near the top of `usize`, the
+/// top itself, and the multiples of `2^64 / order` (± 1), where `u * order` wraps to a small value.
+pub fn extreme_id(rng: &mut Rng, order: usize) -> usize {
+    let order = order.max(1) as u128;
+    match rng.below(8) {
+        0 => 1usize << 62,
+        1 => (1usize << 62) + 1 + rng.below(3),
+        2 => 1usize << 63,
+        3 => (1usize << 63) + rng.below(3),
+        4 => usize::MAX - rng.below(2),
+        5 => usize::MAX / 2 + rng.below(2),
+        _ => {
+            // ceil / floor of k * 2^64 / order, k in 1..order, plus a small offset
+            let k = 1 + rng.below(order as usize) as u128;
+            let q = (k << 64) / order;
+            let x = q + rng.below(3) as u128;
+            if x > usize::MAX as u128 { usize::MAX } else { x as usize }
+        }
+    }
+}
+
 /// A history of `len` calls for representation `repr` over the start `desc`.
 /// 80 % valid / 20 % invalid arguments; valid ones biased to a few hot pairs so that
 /// add → remove → re-add, double remove, toggle twice and weight replacement occur.
@@ -396,13 +452,19 @@ pub fn gen_ops(rng: &mut Rng, repr: &str, desc: &Desc, len: usize) -> Vec<HOp> {
         let invalid = rng.chance(1, 5) || hot.is_empty();
         let (u, v) = if invalid {
             let x = if n > 0 { ids[rng.below(n)] } else { 0 };
-            match rng.below(5) {
+            match rng.below(8) {
                 0 | 1 => (x, x),                 // self-loop
                 2 => (top, x),                   // u = order
-                3 => (x, top + 1),               // v = order + 1
-                _ => {
-                    // far-out id (the map admits it: keep it small enough to stay cheap)
+                3 => (x, top + rng.below(top + 2)), // v = order .. 2*order+1 (may alias an in-range cell)
+                4 => {
+                    // far-out id (the map admits it)
                     if rng.chance(1, 2) { (x, 1usize << 40) } else { (1usize << 40, x) }
+                }
+                _ => {
+                    // extreme ids: around 2^62, 2^63, usize::MAX and k * 2^64 / order (index
+                    // arithmetic `u * order + v` wraps there when overflow checks are off)
+                    let e = extreme_id(rng, top);
+                    if rng.chance(2, 3) { (e, x) } else { (x, e) }
                 }
             }
         } else if rng.chance(7, 10) {
@@ -414,8 +476,19 @@ pub fn gen_ops(rng: &mut Rng, repr: &str, desc: &Desc, len: usize) -> Vec<HOp> {
         let op = if repr == "mx" {
             if k < 35 { HOp::Add(u, v) } else if k < 70 { HOp::Rem(u, v) } else { HOp::Tog(u, v) }
         } else if weighted {
-            let w = if repr == "wu" { rng.range(0, 5) } else { rng.range(-3, 3) };
-            if k < 55 { HOp::AddW(u, v, i128::from(w)) } else { HOp::Rem(u, v) }
+            let w: i128 = if rng.chance(1, 20) {
+                // extreme weights are only stored, never added up here
+                if repr == "wu" {
+                    *rng.pick(&[usize::MAX as i128, 1i128 << 62, (1i128 << 63) + 1])
+                } else {
+                    *rng.pick(&[isize::MAX as i128, isize::MIN as i128, -(1i128 << 62), 1i128 << 50])
+                }
+            } else if repr == "wu" {
+                i128::from(rng.range(0, 5))
+            } else {
+                i128::from(rng.range(-3, 3))
+            };
+            if k < 55 { HOp::AddW(u, v, w) } else { HOp::Rem(u, v) }
         } else if k < 55 {
             HOp::Add(u, v)
         } else {
@@ -501,7 +574,71 @@ pub fn gen(rng: &mut Rng, thorough: bool, emit: &mut dyn FnMut(String)) {
     }
 }
 
+/// Out-of-distribution stream (`gharness gen C01 <seed> stress`): big bit matrices whose cells
+/// need more than 21 bits (orders 1649..2100, 2048, 4096), arcs in the highest rows and the last
+/// columns, a few calls with extreme vertex arguments; other representations at order ~2000.
+fn gen_stress(rng: &mut Rng, emit: &mut dyn FnMut(String)) {
+    let mut orders: Vec<usize> = vec![2048, 1649, 2049, 4096, 2047, 1650, 3000, 1024, 513, 257];
+    for _ in 0..8 {
+        orders.push(1649 + rng.below(452));
+    }
+    for (i, &n) in orders.iter().enumerate() {
+        let reprs: &[&str] = if i < 6 { &["mx"] } else { &["mx", "al", "el"] };
+        for repr in reprs {
+            let desc = Desc { repr: (*repr).to_string(), verts: (0..n).collect(), arcs: vec![], weights: vec![] };
+            let mut ops = vec![];
+            // the last column in the upper half of the rows, the last rows, the corners
+            let highs = [n - 1, n - 2, n - 3, n / 2, n / 2 + 1, n / 2 - 1, 3 * n / 4];
+            let cols = [n - 1, n - 2, 0, 1, n / 2];
+            let len = if n >= 4096 { 6 } else { 14 };
+            for j in 0..len {
+                let u = if j < highs.len() { highs[j] } else { n / 2 + rng.below(n - n / 2) };
+                let v = if j % 3 != 2 { n - 1 } else { *rng.pick(&cols) };
+                if u == v {
+                    ops.push(HOp::Add(u, v - 1));
+                    continue;
+                }
+                ops.push(if *repr == "mx" && rng.chance(1, 4) { HOp::Tog(u, v) } else { HOp::Add(u, v) });
+            }
+            let e = extreme_id(rng, n);
+            ops.push(HOp::Add(e, n - 1));
+            if *repr == "mx" {
+                ops.push(HOp::Tog(extreme_id(rng, n), 1));
+            }
+            ops.push(HOp::Rem(n - 2, n - 1));
+            ops.push(HOp::Rem(n - 2, n - 1));
+            ops.push(HOp::Rem(n - 1, n + rng.below(n)));
+            emit_history(emit, repr, &desc, &ops);
+        }
+    }
+    gen_extreme_args(rng, emit, 40);
+}
+
+/// Extreme tail / head arguments on small matrices of every order `1..=max` (with overflow
+/// checks off `u * order + v` wraps there: the `release` variant is what makes this visible).
+fn gen_extreme_args(rng: &mut Rng, emit: &mut dyn FnMut(String), max: usize) {
+    for n in 1..=max {
+        let desc = Desc { repr: "mx".to_string(), verts: (0..n).collect(), arcs: vec![], weights: vec![] };
+        let mut ops = vec![];
+        for _ in 0..24 {
+            let e = extreme_id(rng, n);
+            let v = rng.below(n);
+            ops.push(match rng.below(5) {
+                0 | 1 => HOp::Add(e, v),
+                2 | 3 => HOp::Tog(e, v),
+                _ => HOp::Rem(e, v),
+            });
+        }
+        emit_history(emit, "mx", &desc, &ops);
+    }
+}
+
 fn gen_unsorted(rng: &mut Rng, thorough: bool, emit: &mut dyn FnMut(String)) {
+    if crate::stress() {
+        // most promising first; the orchestrator's search budget is short, so ONLY these
+        gen_stress(rng, emit);
+        return;
+    }
     // (1) the construction correspondence `repr_obs` (seed op): descriptions of every family
     let n_obs = if thorough { 600 } else { 25 };
     for _ in 0..n_obs {
@@ -526,6 +663,8 @@ fn gen_unsorted(rng: &mut Rng, thorough: bool, emit: &mut dyn FnMut(String)) {
             emit_history(emit, repr, &desc, &ops);
         }
     }
+    // (2b) extreme vertex arguments on small matrices (see `gen_extreme_args`)
+    gen_extreme_args(rng, emit, if thorough { 40 } else { 16 });
     // (3) exhaustive small scope: every history of length ≤ L over 3 vertices
     if thorough {
         gen_exhaustive(emit, "al", 3, 4);
